@@ -578,9 +578,23 @@ static int logpos = 0;
 static pthread_mutex_t log_mx = PTHREAD_MUTEX_INITIALIZER;
 atomic_long log_lines = 0;
 atomic_int mon_log_errors = 0;
+extern char __executable_start[], _end[];
 NOINST void __wrap_syslog(int pri, const char *fmt, ...) {
 	char line[1200];
-	va_list ap; va_start(ap, fmt); vsnprintf(line, sizeof line, fmt, ap); va_end(ap);
+	/* a format that is not a constant of the program image (stack / heap buffer) and contains a conversion is a format-string defect:
+	 * input bytes (ids from the configuration files, received data) would be interpreted by printf. Reported; the text is then logged verbatim */
+	if (!(fmt >= __executable_start && fmt < _end) && strchr(fmt, '%')) {
+		static atomic_int once = 0;
+		if (!atomic_exchange(&once, 1)) {
+			char esc[200]; int k = 0;
+			for (const char *c = fmt; *c && k < 190; c++) esc[k++] = (*c == '"' || *c == '\\' || (unsigned char)*c < 32) ? '?' : *c;
+			esc[k] = 0;
+			hx_violation("format-string", "syslog called with a non-constant format containing conversions: %s", esc);
+		}
+		snprintf(line, sizeof line, "%s", fmt);
+	} else {
+		va_list ap; va_start(ap, fmt); vsnprintf(line, sizeof line, fmt, ap); va_end(ap);
+	}
 	if ((pri & 7) <= 3 && mon_log_errors) {
 		char esc[300]; int k = 0;
 		for (const char *c = line; *c && k < 290; c++) { if (*c == '"' || *c == '\\') esc[k++] = '\''; else if ((unsigned char)*c < 32) esc[k++] = ' '; else esc[k++] = *c; }
